@@ -37,8 +37,12 @@ Enabled(c, s) ==
     [] s.a = "TrailingComma" -> i \in 1..N(c) /\ Toks(c)[i].k = "CLOSE_PAREN" /\ Has(Toks(c)[i], "closes-nonempty-arglist")
     [] s.a = "IntBase" -> i \in 1..N(c) /\ Toks(c)[i].k = "INTEGER" /\ s.w \in {"dec", "hex", "HEX", "oct", "bin"}
     [] s.a = "DecimalLeadingZeros" -> i \in 1..N(c) /\ Toks(c)[i].k = "DECIMAL" /\ s.w \in {"0", "1", "2"}
-    [] s.a = "QuoteStyle" -> /\ i \in 1..N(c) /\ Toks(c)[i].k \in {"STRING_LITERAL", "MULTILINE_STRING_LITERAL"} /\ Has(Toks(c)[i], "plain-content")
+    [] s.a = "QuoteStyle" -> /\ i \in 1..N(c) /\ Toks(c)[i].k \in {"STRING_LITERAL", "MULTILINE_STRING_LITERAL"}
                              /\ s.w \in {"single", "double", "triple-single", "triple-double"}
+                             \* plain content (no quote, backslash or line break) may be written in any style; content whose only
+                             \* special characters are quotes (written escaped where they equal the delimiter) in both single-line styles
+                             /\ \/ Has(Toks(c)[i], "plain-content")
+                                \/ Has(Toks(c)[i], "quotes-only-content") /\ s.w \in {"single", "double"}
                              /\ (s.w \in {"triple-single", "triple-double"} => Has(Toks(c)[i], "string-value-context"))
     [] OTHER -> FALSE
 
